@@ -231,11 +231,12 @@ fn first_diff(want: &[Obs], got: &[Obs]) -> String {
                 "?"
             }
         }
-        (None, Some(_)) => "extra item",
-        (Some(_), None) => "missing item",
+        (None, Some(_)) => "number of items (extra item)",
+        (Some(_), None) => "number of items (missing item)",
         _ => "item kind",
     };
-    format!("first difference at item {i}: {what}")
+    // the failure class of vcore is the start of the note: kind of difference first
+    format!("{what} differs (first difference at item {i})")
 }
 
 /// Precomputed model side of one (source, table, end-line char): both report flags share it.
